@@ -1,6 +1,7 @@
 //! zipconf: conformance harness binding the TLA+ specification in /verif/spec to zip-rs/zip.
 mod cp437;
 mod lexer;
+mod rexec;
 mod sink;
 mod util;
 mod wexec;
@@ -14,6 +15,7 @@ fn main() {
     let rest = &args[2..];
     let code = match args[1].as_str() {
         "wexec" => wexec::main_wexec(rest),
+        "rexec" => rexec::main_rexec(rest),
         "lex" => {
             let b = std::fs::read(&rest[0]).expect("read");
             let o = lexer::LexOpts { allow_trailing: true, ..Default::default() };
